@@ -1,4 +1,6 @@
 import JsonVerif.Lemmas.Mapped
+import JsonVerif.Lemmas.Spans
+import JsonVerif.Model.Entry
 /-!
 # C11 — Code-map offsets navigate correctly (mapped iterators, fragment index, TryFrom)
 
@@ -27,7 +29,7 @@ theorem C11_array (cm : List CMEntry) (xs : List JValue) (pre post : List Nat)
 theorem C11_array_fragments (xs : List JValue) (preT postT : List Frag) :
     (offsetsL (preT.length + 1) xs).map (fun i => (preT ++ preV (.array xs) ++ postT)[i]?) =
       xs.map (fun x => some (Frag.value x)) := by
-  have := preL_offsets xs (preT ++ preV (.array xs) ++ postT) (preT ++ [Frag.value (.array xs)]) postT
+  have := poL_offsets xs (preT ++ preV (.array xs) ++ postT) (preT ++ [Frag.value (.array xs)]) postT
     (by simp [preV])
   simpa using this
 
@@ -52,6 +54,22 @@ theorem C11_traverse (v : JValue) : traverse v = preV v ∧ (traverse v).length 
 /-- The volume column itself has one entry per fragment. -/
 theorem C11_volumes_length (v : JValue) : (volsV v).length = (preV v).length := by
   rw [volsV_length, preV_length]
+
+/-- **On parsed documents** the hypothesis of the navigation theorems holds (C05: the volume column
+    of the parser's code map is `volsV`), so for every document the strict parser accepts, the mapped
+    iterators over the root container return exactly the fragment offsets — parser and navigation
+    compose. -/
+theorem C11_parsed_array (cs : List Char) (xs : List JValue) (cm : List CMEntry)
+    (h : parseStr ⟨false, false⟩ cs = .ok (.array xs, cm)) :
+    arrayMapped cm 0 xs = some (offsetsL 1 xs) := by
+  have := C11_array cm xs [] [] (by simpa using parse_volumes h)
+  simpa using this
+
+theorem C11_parsed_object (cs : List Char) (es : List (Key × JValue)) (cm : List CMEntry)
+    (h : parseStr ⟨false, false⟩ cs = .ok (.object es, cm)) :
+    objectMapped cm 0 es = some (offsetsM 1 es) := by
+  have := C11_object cm es [] [] (by simpa using parse_volumes h)
+  simpa using this
 
 /-- Keyed mapped lookups (`get_mapped*`, `get_unique_mapped*`): full statement, not yet proved in
     Lean (needs the C06 invariant for "indexes ascending" plus the advance-loop lemma); covered by
